@@ -38,7 +38,10 @@ async def _run(product, thermostats, ops):
     for op in ops:
         cls = {0: R.EcomaxParametersResponse, 1: R.MixerParametersResponse, 2: R.ThermostatParametersResponse,
                3: R.SchedulesResponse}[op["kind"]]
-        dev.handle_frame(cls(message=bytearray(op["payload"])))
+        try:
+            dev.handle_frame(cls(message=bytearray(op["payload"])))
+        except (IndexError, KeyError, ValueError):
+            pass        # the response is refused as a whole (e.g. a thermostat block longer than the table): it must leave no trace
         await settle()
     out = []
 
@@ -141,8 +144,8 @@ class C07(Prop):
                     nm = rng.randrange(0, 5)
                     ops.append({"kind": 1, "enc": [rng.randrange(256), start, count, [self._slots(rng, count, hole_p=rng.choice([0.1, 0.5, 1.0])) for _ in range(nm)]]})
                 elif nth > 0:
-                    per = rng.randrange(1, len(ttab) + 1)
-                    size_of = lambda i: ttab[i]["size"]
+                    per = rng.choice([rng.randrange(1, len(ttab) + 1), rng.randrange(1, len(ttab) + 1), len(ttab) + 1, len(ttab) + 2])
+                    size_of = lambda i: ttab[i]["size"] if i < len(ttab) else 1
                     hp = rng.choice([0.0, 0.0, 0.2])
                     ops.append({"kind": 2, "enc": [rng.randrange(256), per, self._slots(rng, 1, hole_p=0.2)[0],
                                                    [self._slots(rng, per, size_of, hole_p=hp) for _ in range(nth)]]})
@@ -211,8 +214,10 @@ class C07(Prop):
         # parameters created by the device itself (control, profile) are outside the handler model
         return sorted([row[:7] for row in b if row[0] in (0, 1, 2)])
 
-    def _latest(self, c):
-        """(tag, sub, position) -> raw value of the slot at that wire position in the latest response defining it"""
+    def _latest(self, c, lenient=False):
+        """(tag, sub, position) -> raw value of the slot at that wire position in the latest response defining it.
+        A thermostat response with more slots per thermostat than the table has descriptions may be refused as a whole
+        (lenient=False) or have its described positions accepted (lenient=True): the property allows both."""
         t = G.tables()
         lens = {0: len(t["ecomax_params_p" if c["product"] == 0 else "ecomax_params_i"]),
                 1: len(t["mixer_params_p" if c["product"] == 0 else "mixer_params_i"]), 2: len(t["thermostat_params"])}
@@ -229,6 +234,8 @@ class C07(Prop):
                         if sl and e[1] + i < lens[1]:
                             exp[(1, m, e[1] + i)] = sl[0][0]
             elif op["kind"] == 2:
+                if e[1] > lens[2] and not lenient:
+                    continue
                 for tt, block in enumerate(e[3]):
                     for i, sl in enumerate(block):
                         if sl and i < lens[2]:
@@ -259,7 +266,7 @@ class C07(Prop):
             # carried at the table position of that name, and every such position is held
             exp = self._latest(c)
             held = {(row[0], row[1], row[2]): row[7] for row in b if row[0] in (0, 1, 2)}
-            if check_values and held != exp:
+            if check_values and held != exp and held != self._latest(c, lenient=True):
                 ok = False
             if check_values and not self._sched_ok(c, b):
                 ok = False
@@ -275,7 +282,7 @@ class C07(Prop):
                 elif tag == 1:
                     good = pos != 999 and index == pos and code == 52 and payload == [sub, pos, value]
                 elif tag == 2:
-                    per = self._creating_per(c, sub, pos)
+                    per = self._creating_per(c, sub, pos, self._lenient(c, b))
                     exp = [pos + 1 + sub * per] + list(int(value).to_bytes(size, "little"))
                     good = pos != 999 and index == pos and code == 93 and payload == exp
                 elif tag == 4:
@@ -286,11 +293,18 @@ class C07(Prop):
             out.append(ok)
         return out
 
-    def _creating_per(self, c, t, pos):
+    def _lenient(self, c, b):
+        held = {(row[0], row[1], row[2]): row[7] for row in b if row[0] in (0, 1, 2)}
+        return held != self._latest(c) and held == self._latest(c, lenient=True)
+
+    def _creating_per(self, c, t, pos, lenient=False):
         """slots per thermostat of the response that first defined parameter `pos` of thermostat t"""
+        nt = len(G.tables()["thermostat_params"])
         for op in c["ops"]:
             if op["kind"] == 2:
                 per, blocks = op["enc"][1], op["enc"][3]
+                if per > nt and not lenient:
+                    continue            # refused as a whole
                 if t < len(blocks) and pos < per and blocks[t][pos]:
                     return per
         return 0
@@ -306,7 +320,7 @@ class C07(Prop):
             if tag == 5:
                 continue
             if tag == 2 and sub >= 1:
-                per = self._creating_per(c, sub, pos)
+                per = self._creating_per(c, sub, pos, self._lenient(c, ib))
                 exp = [pos + 1 + sub * per] + list(int(value).to_bytes(size, "little"))
                 if payload != exp:
                     holes = any(op["kind"] == 2 and sub < len(op["enc"][3]) and any(not s for s in op["enc"][3][sub]) for op in c["ops"])
@@ -319,7 +333,7 @@ class C07(Prop):
         # everything except the D8 rows must satisfy the spec
         rest = [row for row in ib if not (row[0] == 2 and row[1] >= 1)]
         full = {(row[0], row[1], row[2]): row[7] for row in ib if row[0] in (0, 1, 2)}
-        return full == self._latest(c) and self._sched_ok(c, ib) and self.spec_many([c], [rest], check_values=False)[0]
+        return (full == self._latest(c) or full == self._latest(c, lenient=True)) and self._sched_ok(c, ib) and self.spec_many([c], [rest], check_values=False)[0]
 
     def nontrivial_key(self, c, mb):
         for op in c["ops"]:
